@@ -176,6 +176,13 @@ class _HppTranslator(TranslatorBase):
         _HppDefinitionsTranslator
     ]
 
+    def _nodes_dispatcher(self, nodes, base_name):
+        if not nodes:
+            # a file without definitions still opens the namespace that its .ppf.cpp refers to
+            yield None, _HppDefinitionsTranslator()(nodes, base_name)
+        for translated in TranslatorBase._nodes_dispatcher(self, nodes, base_name):
+            yield translated
+
     @classmethod
     def _make_lines_splitter(cls, previous_node_type, current_node_type):
         if not previous_node_type:
